@@ -40,6 +40,14 @@ SCENARIOS = [
     ('fail-then-run',  [T('t1', 0, 'spawn'), T('t2', 0, timeout=5)], [['t1', 't2']]),
     ('three',          [T('t1', 0), T('t2', 1, timeout=5), T('t3', 0, 'script')], [['t3', 't1']]),
 ]
+# intake bulks with more than one task (default: one task per bulk)
+BULKS = {'bulk-fail-mid': [['t1', 't2', 't3']], 'bulk-fail-first': [['t1', 't2']],
+         'bulk-cancel': [['t1', 't2']]}
+SCENARIOS += [
+    ('bulk-fail-mid',   [T('t1', 0), T('t2', 0, 'nolauncher'), T('t3', 1)], []),
+    ('bulk-fail-first', [T('t1', 0, 'spawn'), T('t2', 0)], [['t2']]),
+    ('bulk-cancel',     [T('t1', 0), T('t2', 0, timeout=5)], [['t1']]),
+]
 
 
 def mc_files(tasks, cancels, devs=(), liveness=False):
@@ -102,7 +110,7 @@ def _job(args):
     # importing popen.py installs SIGTERM/SIGINT handlers which swallow the signal
     signal.signal(signal.SIGTERM, signal.SIG_DFL)
     signal.signal(signal.SIGINT,  signal.SIG_DFL)
-    scn = X.Scenario(tasks, cancels)
+    scn = X.Scenario(tasks, cancels, bulks=BULKS.get(name))
     out = []
     if kind == 'dfs':
         bound, limit = arg
@@ -145,7 +153,7 @@ def run(chk, tier, seed):
     rng   = random.Random(seed * 104729 + 7)
 
     # ---- 1. design model ------------------------------------------------------
-    mcs = SCENARIOS[:7] + SCENARIOS[7:9] if quick else SCENARIOS[:11]
+    mcs = SCENARIOS[:9] if quick else SCENARIOS[:11] + SCENARIOS[12:]
     for name, tasks, cancels in mcs:
         res = tlc.run('Executor', 'MCX', 'MCX.cfg', workers=16, timeout=1500,
                       extra_files=mc_files(tasks, cancels))
@@ -178,7 +186,7 @@ def run(chk, tier, seed):
     # ---- 2. TLC behaviours as schedules ----------------------------------------
     jobs = []
     nsim = 60 if quick else 600
-    for name, tasks, cancels in SCENARIOS[:11]:
+    for name, tasks, cancels in SCENARIOS[:11] + SCENARIOS[12:]:
         dump = tlc.scratch('rpxsim_')
         try:
             res = tlc.run('Executor', 'MCX', 'MCX.cfg', workers=1, timeout=600,
@@ -214,7 +222,8 @@ def run(chk, tier, seed):
                                                    'distinct_event_sequences': len(uniq)})
         for tr in uniq:
             traces.append(tr)
-            meta.append({'kind': kind, 'scenario': name, 'tasks': job[2], 'cancels': job[3]})
+            meta.append({'kind': kind, 'scenario': name, 'tasks': job[2], 'cancels': job[3],
+                         'bulks': BULKS.get(name)})
     chk.evaluations = nruns
 
     # ---- 4. monitor ----------------------------------------------------------------
@@ -237,12 +246,15 @@ def run(chk, tier, seed):
                 owners.add('C03')
             if p == 'C08':
                 owners = {'C08'}
+            # a task left behind / handed on with a wrong outcome never reaches a truthful final state
+            if err in ('C07.LeftBehind', 'C07.OutcomeWrong', 'C07.OutcomeMissing', 'C07.ThreadDiedOrDeadlock'):
+                owners.add('C05')
             if pid not in owners:
                 continue
             chk.violation(err.replace(p + '.', pid + '.', 1) if p != pid else err, classify(tr),
                           'real Popen executor trace violates %s' % err,
                           {'rig': 'executor', 'tasks': m['tasks'], 'cancels': m['cancels'],
-                           'schedule': tr['schedule'], 'errs': errs, 'trace': tr})
+                           'bulks': m['bulks'], 'schedule': tr['schedule'], 'errs': errs, 'trace': tr})
     if traces:
         chk.sample({'scenario': meta[0]['scenario'], 'schedule': traces[0]['schedule'][:40],
                     'events': [(e['who'], e['ev'], e['uid']) for e in traces[0]['events'][:25]]})
@@ -256,7 +268,7 @@ def run(chk, tier, seed):
 def replay(chk, obj):
     from ..rigs import exec_rig as X
     from .. import sched_ctl as SC
-    scn = X.Scenario(obj['tasks'], obj['cancels'])
+    scn = X.Scenario(obj['tasks'], obj['cancels'], bulks=obj.get('bulks'))
     rig = X.ExecRig(scn, SC.scripted(obj['schedule']))
     tr  = rig.run()
     res, st = tracecheck.validate('Executor', 'ExecutorTrace', '', [tr])
